@@ -332,7 +332,7 @@ def rule_fingerprint(ctx) -> None:
     Obj = oe.Obj
     fn = ctx.own(DB, "DatabaseManager", "get_quick_info_hash")
 
-    def run_on(fs: dict):
+    def run_on(fs: dict, fn=fn, env=None):
         """fs: {path: (mtime, size)} for files, {dir: None} for directories"""
         def cv(c: ast.Call, ev):
             f = norm(c.func)
@@ -378,9 +378,9 @@ def rule_fingerprint(ctx) -> None:
             return oe.NOT_MODELLED
         sym = ctx.fold_sym(fn, {"SPSDK_DEBUG_DB": False})
         try:
-            out = oe.Evaluator({"paths": ("/d", None)}, sym, opaque_return=False, call_value=cv).run(A.body_of(fn.node))
+            out = oe.Evaluator(dict(env) if env is not None else {"paths": ("/d", None)}, sym, opaque_return=False, call_value=cv).run(A.body_of(fn.node))
         except oe.Unsupported as ex:
-            raise AnalysisError(f"C18.fingerprint: get_quick_info_hash left the fragment: {ex}")
+            raise AnalysisError(f"C18.fingerprint: {fn.name} left the fragment: {ex}")
         return (out.kind, out.value)
     base = {"/d": None, "/d/common": None, "/d/common/database_defaults.yaml": (1000, 50), "/d/devices": None,
             "/d/devices/alpha": None, "/d/devices/alpha/database.yaml": (2000, 70), "/d/devices/alpha/other.json": (1, 1),
@@ -403,6 +403,37 @@ def rule_fingerprint(ctx) -> None:
         probs.append("unchanged when device beta is removed")
     ctx.chk.decide(not probs, "C18.fingerprint", fn.qual, "the cache fingerprint depends on (mtime, size) of every devices/*/database.yaml and of the common defaults and on the set of device folders (6 model file systems)",
                    "; ".join(probs), "a rewritten database file changes the fingerprint", A.loc(DB, fn.node))
+    # the DATA cache (db_data_*.cache) stores the parsed configuration files AND the defaults (DatabaseData.__init__ restores
+    # `defaults` from the cache): its fingerprint must change when any cached file or the defaults file is rewritten
+    nested: dict = {}
+    for k_ in ast.walk(ctx.m(DB).tree):
+        if isinstance(k_, ast.ClassDef) and k_.name == "DatabaseData":
+            for st_ in k_.body:
+                if isinstance(st_, ast.FunctionDef):
+                    nested[st_.name] = type("NestedFn", (), {"module": ctx.m(DB), "cls": None, "node": st_, "name": st_.name, "qual": f"{DB}::Database.DatabaseData.{st_.name}"})()
+    if "__init__" not in nested or "hash_db_data" not in nested:
+        raise AnalysisError("C18.fingerprint: Database.DatabaseData.__init__ / hash_db_data not found")
+    init = nested["__init__"]
+    if not any(isinstance(n, ast.Attribute) and n.attr == "defaults" and "loaded_db_data" in norm(n) for n in ast.walk(init.node)):
+        raise AnalysisError("C18.fingerprint: DatabaseData.__init__ no longer restores `defaults` from the cache object (rule needs review)")
+    hd = nested["hash_db_data"]
+    base2 = {"/d": None, "/d/common": None, "/d/common/database_defaults.yaml": (1000, 50), "/d/devices": None, "/d/devices/alpha": None,
+             "/d/devices/alpha/database.yaml": (2000, 70), "/d/devices/alpha/pfr.json": (2500, 80)}
+    env2 = {"cached_configs": ("/d/devices/alpha/database.yaml", "/d/devices/alpha/pfr.json"), "path": "/d", "restricted_data_path": None, "addons_data_path": None}
+    ref2 = run_on(base2, hd, env2)
+    probs2 = []
+    if ref2[0] != "return" or run_on(dict(base2), hd, env2) != ref2:
+        probs2.append(f"not a function of the file system state: {ref2[0]}")
+    for what, delta in {"a cached configuration file rewritten in place (mtime)": {"/d/devices/alpha/pfr.json": (2501, 80)},
+                        "a cached configuration file rewritten in place (size)": {"/d/devices/alpha/database.yaml": (2000, 71)},
+                        "common/database_defaults.yaml rewritten (mtime)": {"/d/common/database_defaults.yaml": (1001, 50)},
+                        "common/database_defaults.yaml rewritten (size)": {"/d/common/database_defaults.yaml": (1000, 51)}}.items():
+        fs2 = dict(base2)
+        fs2.update(delta)
+        if run_on(fs2, hd, env2) == ref2:
+            probs2.append(f"unchanged when {what}")
+    ctx.chk.decide(not probs2, "C18.fingerprint", hd.qual, "the data-cache fingerprint depends on (mtime, size) of every cached configuration file and of the defaults file whose content the cache restores (5 model file systems)",
+                   "; ".join(probs2), "a rewritten file whose content the cache holds changes the fingerprint", A.loc(DB, hd.node))
 
 
 def rule_quick_info_twin(ctx) -> None:
